@@ -409,7 +409,7 @@ fn main() {
         // 3. random structured families
         let nrand = if thorough { 2400 } else { 480 };
         for k in 0..nrand {
-            let big = (k / 12) % 8 == 7;
+            let big = (k / 12) % 16 == 15;
             let (fam, g) = random_family(&mut rng, k, big);
             emit(&mut sink, &mut st, &fam, &g, &MERGES, std_pr, 15000);
         }
